@@ -34,8 +34,20 @@ func parseGuard(s string) guardExpr {
 
 func atomKey(e ast.Expr) (string, bool) {
 	// returns canonical atom and whether it is negated
-	if be, ok := e.(*ast.BinaryExpr); ok && be.Op == token.EQL {
-		return types.ExprString(&ast.BinaryExpr{X: be.X, Op: token.NEQ, Y: be.Y}), true
+	// == and != are symmetric: operands in lexical order
+	if be, ok := e.(*ast.BinaryExpr); ok && (be.Op == token.EQL || be.Op == token.NEQ) {
+		x, y := be.X, be.Y
+		if types.ExprString(y) < types.ExprString(x) {
+			x, y = y, x
+		}
+		return types.ExprString(&ast.BinaryExpr{X: x, Op: token.NEQ, Y: y}), be.Op == token.EQL
+	}
+	for {
+		p, ok := e.(*ast.ParenExpr)
+		if !ok {
+			break
+		}
+		e = p.X
 	}
 	return types.ExprString(e), false
 }
